@@ -25,7 +25,7 @@ META = {
                    "oracle is independent of the model.",
 }
 
-DERIVE = ["copy", "add_record", "constructor", "update", "add_bundle_doc", "add_bundle_empty_doc", "unified", "unified_bundle", "flattened",
+DERIVE = ["copy", "add_record", "constructor", "update", "add_bundle_doc", "add_bundle_empty_doc", "unified", "unified_bundle", "unified_twice", "flattened",
           "json", "xml", "rdf"]
 MUTATE = ["add_attrs", "add_record", "add_ns", "set_default", "add_bundle", "set_time", "add_type", "conv", "add_attrs_new_ns", "via_lookup"]
 
@@ -218,6 +218,13 @@ def derive(g, w, b, d, how):
     if how == "unified":
         t, err = w.unified(d)
         return ("cont", d, t) if t else None
+    if how == "unified_twice":
+        # the source is itself the result of unified(): unifying it again returns a document of its own once more
+        t1, err = w.unified(d)
+        if not t1:
+            return None
+        t2, err = w.unified(t1)
+        return ("cont", t1, t2) if t2 else None
     if how == "unified_bundle":
         bs = all_containers(w, [d])[1:]
         if not bs:
@@ -245,7 +252,7 @@ def make_case(ctx, g):
     b = DocBuilder(g, w, repeat_id=0.25, malformed=0.0)
     d, scopes = b.random_document(n_records=g.rng.randint(1, 5))
     how = g.choice(DERIVE)
-    if how in ("unified", "unified_bundle", "flattened", "update", "constructor") and g.chance(0.5):
+    if how in ("unified", "unified_bundle", "unified_twice", "flattened", "update", "constructor") and g.chance(0.5):
         # make sure something is really merged: the same identifier once more, same kind, one more attribute
         for c in all_containers(w, [d]):
             els = [x for x in w.conts[c].records if x.is_element()]
